@@ -10,6 +10,8 @@ package loopworld
 import (
 	"context"
 	"fmt"
+	"github.com/PowerDNS/lightningstream/syncer"
+	"github.com/PowerDNS/lightningstream/syncer/hooks"
 	"os"
 	"sort"
 	"strings"
@@ -57,8 +59,12 @@ type Cfg struct {
 	// ListOutage: every List call fails with an ordinary storage error, also after cancellation (a backend that does
 	// not look at the context); the only thing explored is when the context is cancelled. Sync must return then.
 	ListOutage bool `json:"list_outage"`
-	RetryCount int  `json:"retry_count"` // storage_retry_count (default 3); with StoreFaults >= RetryCount a whole upload can fail
-	TwoRemotes bool `json:"two_remotes"` // two remote instances with disjoint keys; both snapshots may wait in the receiver at once
+	// OtherUpdates: the OtherUpdateSource extension hook is set; "an update of another kind for instance r arrives" is an
+	// environment answer (once). FirstLoadFails: the first download of r's snapshot fails (scripted, no cost).
+	OtherUpdates   bool `json:"other_updates"`
+	FirstLoadFails bool `json:"first_load_fails"`
+	RetryCount     int  `json:"retry_count"` // storage_retry_count (default 3); with StoreFaults >= RetryCount a whole upload can fail
+	TwoRemotes     bool `json:"two_remotes"` // two remote instances with disjoint keys; both snapshots may wait in the receiver at once
 }
 
 var LoopHooks = []string{"sync.loopTop", "sync.beforeLoad", "load.beforeTxn", "load.afterTxn", "sync.afterLoad", "sync.beforeInfo", "sync.beforeSend", "send.beforeTxn", "send.afterTxn", "send.beforeStore", "send.afterStore", "sync.afterSendCheck", "sync.afterStartupCapture"}
@@ -95,6 +101,9 @@ type World struct {
 	forced            int
 	quietUsed         bool
 	outageSleeps      int
+	otherCh           chan snapshot.Update
+	otherSent         bool
+	firstLoadFailed   bool
 	txnBeforeLoad     int64
 	appTxns           []int64 // ids of the application's committed transactions
 	lastUploadTxn     int64
@@ -305,6 +314,16 @@ func (w *World) viol(sig, msg string) {
 
 // appOp commits one application transaction. Transactions that change nothing
 // are not recorded by LMDB and are not counted as commits.
+// retryHeld: the loop goroutine is in the middle of an iteration (not sleeping until its next poll).
+func retryHeld(parked []*sched.P) bool {
+	for _, p := range parked {
+		if p.Thread == "sync" || p.Thread == "syncmain" {
+			return p.Point != "sleep.lmdbpoll"
+		}
+	}
+	return true
+}
+
 // culpritHook names the application commit a whole-run failure (loop died, mirror inconsistent) is attributed to:
 // the first commit that landed in one of the two windows after an empty Lightning Stream transaction (the known
 // root causes), else the last commit.
@@ -666,6 +685,10 @@ func Run(cfg Cfg, ctx *explore.Ctx) Result {
 		// the cleaner takes "now" from the real clock: all scripted snapshots (logical clock, 2017) are older than any interval
 		opt.Cleanup = &config.Cleanup{Enabled: true, Interval: 7 * time.Minute, MustKeepInterval: 0, RemoveOldInstancesInterval: time.Second}
 	}
+	if cfg.OtherUpdates {
+		w.otherCh = make(chan snapshot.Update, 4)
+		opt.SyncerOpt = &syncer.Options{Hooks: &hooks.Hooks{OtherUpdateSource: func() <-chan snapshot.Update { return w.otherCh }}}
+	}
 	w.A = inst.New("a", w.B, opt)
 	defer w.A.Destroy()
 	// steady state: initial content written and mirrored by a previous complete sync step
@@ -726,6 +749,11 @@ func Run(cfg Cfg, ctx *explore.Ctx) Result {
 		if cfg.ListOutage && op == "list" {
 			s.Park("st."+op, name, []string{"fail"})
 			return fmt.Errorf("injected storage outage: connection refused")
+		}
+		if cfg.FirstLoadFails && op == "load" && strings.Contains(name, "__r__") && !w.firstLoadFailed {
+			w.firstLoadFailed = true
+			s.Park("st."+op, name, []string{"fail"})
+			return fmt.Errorf("injected storage failure (request timeout): %w", context.DeadlineExceeded)
 		}
 		answers := []string{"ok"}
 		if (op == "store" && cfg.StoreFaults > 0) || (op == "load" && cfg.LoadFaults) || (op == "list" && cfg.ListFaults) {
@@ -959,6 +987,8 @@ func (w *World) policy(appPoints map[string]bool) sched.Policy {
 				cleanerSleep = p
 			case p.Point == "sleep.sweeper":
 				// the tomb sweeper's timer does not fire in this scenario (it only enables the load cutoff)
+			case p.Point == "sleep.retry" && cfg.FirstLoadFails && p.Thread == "dl:r" && retryHeld(parked):
+				// the retry of the failed download takes its time: it fires when the loop has nothing else to do
 			case strings.HasPrefix(p.Point, "sleep."):
 				// retry sleeps of downloaders: fire them as background work
 				background = append(background, p)
@@ -1016,6 +1046,20 @@ func (w *World) policy(appPoints map[string]bool) sched.Policy {
 			if (p.Point == "st.load" || (p.Point == "st.list" && p.Thread == "cleaner")) && len(p.Answers) == 2 {
 				out = append(out, sched.Choice{Label: p.Key() + "=fail", Cost: 1, P: p, Answer: 1})
 			}
+			if cfg.OtherUpdates && !w.otherSent {
+				out = append(out, sched.Choice{Label: "update-of-another-kind-for-r-arrives", Cost: 1, Act: &sched.Action{Do: func() {
+					w.otherSent = true
+					ni := snapshot.NameInfo{Kind: "delta", Extension: "delta.gz", SyncerName: inst.DBName, InstanceID: "r", GenerationID: "GX", Timestamp: time.Unix(0, int64(w.now()))}
+					ni.FullName = ni.BuildName()
+					msg := &snapshot.Snapshot{FormatVersion: snapshot.CurrentFormatVersion, CompatVersion: 1}
+					msg.Meta.InstanceID = "r"
+					msg.Meta.DatabaseName = inst.DBName
+					w.otherCh <- snapshot.Update{Snapshot: msg, NameInfo: ni, OnClose: func(*snapshot.Update) {}}
+					w.mu.Lock()
+					w.idle = 0
+					w.mu.Unlock()
+				}}})
+			}
 			// the loop is faster than the background work (a download is still in flight when the loop moves on)
 			if cfg.LoopFirst && loop != nil && straddle == nil && !strings.HasPrefix(loop.Point, "st.") && loop.Point != "start" && w.loopFirsts < 3 {
 				lp := loop
@@ -1070,6 +1114,20 @@ func (w *World) policy(appPoints map[string]bool) sched.Policy {
 					w.idle = 0
 					w.mu.Unlock()
 					s.Release(lp, 0)
+				}}})
+			}
+			if cfg.OtherUpdates && !w.otherSent {
+				out = append(out, sched.Choice{Label: "update-of-another-kind-for-r-arrives", Cost: 1, Act: &sched.Action{Do: func() {
+					w.otherSent = true
+					ni := snapshot.NameInfo{Kind: "delta", Extension: "delta.gz", SyncerName: inst.DBName, InstanceID: "r", GenerationID: "GX", Timestamp: time.Unix(0, int64(w.now()))}
+					ni.FullName = ni.BuildName()
+					msg := &snapshot.Snapshot{FormatVersion: snapshot.CurrentFormatVersion, CompatVersion: 1}
+					msg.Meta.InstanceID = "r"
+					msg.Meta.DatabaseName = inst.DBName
+					w.otherCh <- snapshot.Update{Snapshot: msg, NameInfo: ni, OnClose: func(*snapshot.Update) {}}
+					w.mu.Lock()
+					w.idle = 0
+					w.mu.Unlock()
 				}}})
 			}
 			if cfg.ForceInterval && w.forced == 0 {
